@@ -36,6 +36,60 @@ func (c *Ctx) argsElem(v ssa.Value) (int64, bool) {
 	return k, true
 }
 
+// argAccessorCall: v is a call of a module function with index argument 0 or
+// 1 whose every result is "" or the element of the receiver's Args at its
+// index parameter.
+func (c *Ctx) argAccessorCall(v ssa.Value) bool {
+	call, ok := v.(*ssa.Call)
+	if !ok || call.Call.IsInvoke() {
+		return false
+	}
+	callee := call.Call.StaticCallee()
+	if callee == nil || !c.InModuleFn(callee) || callee.Package() != c.Client {
+		return false
+	}
+	okIdx := false
+	for _, arg := range call.Call.Args {
+		if isIntType(arg.Type()) && c.targetIndexValue(arg, 0) {
+			okIdx = true
+		}
+	}
+	if !okIdx {
+		return false
+	}
+	argsF := c.FieldVar(c.Client, "Line", "Args")
+	good, n := true, 0
+	funcInstrs(callee, func(in ssa.Instruction) {
+		rt, isR := in.(*ssa.Return)
+		if !isR || len(rt.Results) != 1 {
+			return
+		}
+		for _, o := range c.originsLocal(retVal(rt, 0)) {
+			n++
+			if k, isK := constString(o); isK && k == "" {
+				continue
+			}
+			u, isU := o.(*ssa.UnOp)
+			if !isU || u.Op != token.MUL {
+				good = false
+				continue
+			}
+			ia, isIA := u.X.(*ssa.IndexAddr)
+			if !isIA {
+				good = false
+				continue
+			}
+			if fv, _ := loadedField(ia.X); fv != argsF || argsF == nil {
+				good = false
+			}
+			if _, isP := ia.Index.(*ssa.Parameter); !isP {
+				good = false
+			}
+		}
+	})
+	return good && n > 0
+}
+
 // targetIndexValue: v is 0 or 1 on every path: a constant, a phi of such, or
 // the result of a module function all of whose results are such (a result of
 // -1, "no target", is accepted: it cannot be used as an index without a panic).
@@ -78,11 +132,13 @@ func (c *Ctx) targetIndexValue(v ssa.Value, depth int) bool {
 func (c *Ctx) c01Accessors() {
 	r := c.R
 	r.Rule("R8", "what a handler receives is the parsed line: at every handler-invocation site the line argument is a forwarded parameter of a Handle wrapper or a Line.Copy made for that invocation alone; the three handler sets and all handlers of one event start from the same parsed line, so a shared pointer would let one handler's edits change what another receives")
+	r.Rule("R10", "the source is split by position only: every decision in parseUserHost compares positions of '!' and '@' (strings.Index results, lengths, constants); no byte of the nick, ident or host is inspected, so no legal nick (the backtick that the default nick generator produces, say) can make a nick!user@host source fall back to 'host only'")
 	r.Rule("R9", "Public decides on byte 0 of the unmodified target parameter (Args[0], or Args[1] for CTCP/CTCPREPLY) compared against exactly the four RFC channel prefixes '#' '&' '+' '!'; Target returns only the sender's nick, a parameter or \"\", and the nick only where Public answered false")
 	copyFn := c.Func(c.Client, "(*Line).Copy")
 	if r.Anchor("R8", "(*Line).Copy", copyFn != nil) {
 		c.perInvocationCopy("R8", copyFn)
 	}
+	c.positionalSplitRule("R10")
 	pub := c.Func(c.Client, "(*Line).Public")
 	tgt := c.Func(c.Client, "(*Line).Target")
 	if !r.Anchor("R9", "(*Line).Public, (*Line).Target", pub != nil && tgt != nil) {
@@ -211,6 +267,10 @@ func (c *Ctx) c01Accessors() {
 				r.Add("R9", key, c.InstrPos(rt), c.FuncKey(tgt), "Target returns a parameter unchanged", true, o.String())
 				continue
 			}
+			if c.argAccessorCall(o) {
+				r.Add("R9", key, c.InstrPos(rt), c.FuncKey(tgt), "Target returns a parameter unchanged (through an accessor that yields Args[i] or \"\")", true, o.String())
+				continue
+			}
 			if fv, _ := loadedField(o); fv != nil && fv == nickF {
 				// must be on the false edge of a Public() call
 				where := rt.Block()
@@ -231,4 +291,74 @@ func (c *Ctx) c01Accessors() {
 		}
 	})
 	r.Floor("R9", "return values of Target", nRet, 3)
+}
+
+// positionalSplitRule: parseUserHost decides and splits by the positions of
+// '!' and '@' alone - no byte of the nick, ident or host is inspected, so any
+// nick the server (or the library's own nick generator) produces is accepted.
+func (c *Ctx) positionalSplitRule(rule string) {
+	r := c.R
+	fn := c.Func(c.Client, "parseUserHost")
+	if !r.Anchor(rule, "parseUserHost", fn != nil) {
+		return
+	}
+	r.Funcs[c.FuncKey(fn)] = true
+	var positional func(v ssa.Value, d int) (bool, string)
+	positional = func(v ssa.Value, d int) (bool, string) {
+		if d > 8 {
+			return false, "expression too deep"
+		}
+		switch t := v.(type) {
+		case *ssa.Const:
+			return true, ""
+		case *ssa.BinOp:
+			if ok, w := positional(t.X, d+1); !ok {
+				return false, w
+			}
+			return positional(t.Y, d+1)
+		case *ssa.UnOp:
+			if t.Op == token.NOT || t.Op == token.SUB {
+				return positional(t.X, d+1)
+			}
+			return false, "depends on " + v.String()
+		case *ssa.Phi:
+			for _, e := range t.Edges {
+				if ok, w := positional(e, d+1); !ok {
+					return false, w
+				}
+			}
+			return true, ""
+		case *ssa.Call:
+			if b, ok := t.Call.Value.(*ssa.Builtin); ok && b.Name() == "len" {
+				return true, ""
+			}
+			switch calleeName(&t.Call) {
+			case "strings.Index", "strings.IndexByte", "strings.LastIndex", "strings.IndexRune", "strings.IndexAny", "strings.LastIndexByte":
+				if _, isK := t.Call.Args[1].(*ssa.Const); isK {
+					return true, ""
+				}
+			}
+			return false, "depends on the result of " + calleeName(&t.Call)
+		case *ssa.Extract:
+			if call, ok := t.Tuple.(*ssa.Call); ok && calleeName(&call.Call) == "strings.Cut" && t.Index == 2 {
+				return true, ""
+			}
+			return false, "depends on " + v.String()
+		}
+		return false, "depends on " + v.String() + " (content of the source, not a position)"
+	}
+	n := 0
+	funcInstrs(fn, func(in ssa.Instruction) {
+		iff, ok := in.(*ssa.If)
+		if !ok {
+			return
+		}
+		n++
+		okP, why := positional(iff.Cond, 0)
+		if okP {
+			why = "compares positions of the separators only"
+		}
+		r.Add(rule, fmt.Sprintf("positional#%d", n), c.InstrPos(iff), c.FuncKey(fn), "whether a source splits into nick!user@host depends only on where '!' and '@' are", okP, why)
+	})
+	r.Floor(rule, "decisions in parseUserHost", n, 1)
 }
